@@ -62,6 +62,7 @@ class FitOutputManager:
         self.nb_of_patients_to_plot = outputs.nb_of_patients_to_plot
         self.periodicity_plot_patients = outputs.plot_patient_periodicity
         self.plot_sourcewise = outputs.plot_sourcewise
+        self.path_output = None
         if outputs.root_path is not None:
             self.path_output = Path(outputs.root_path)
             self.path_plot = Path(outputs.plot_path)
@@ -98,14 +99,15 @@ class FitOutputManager:
             return
         iteration = algo.current_iteration
 
-        if self.path_output is None:
-            return
-
         if self.periodicity_print is not None:
             if iteration == 0 or iteration % self.periodicity_print == 0:
                 self.print_algo_statistics(algo)
                 self.print_model_statistics(model)
                 self.print_time()
+
+        # saving & plotting need an output folder
+        if self.path_output is None:
+            return
 
         if self.periodicity_save is not None:
             if iteration == 0 or iteration % self.periodicity_save == 0:
